@@ -6,6 +6,7 @@ import TinsModel.Wire.Icmp.Theorems
 import TinsModel.Wire.Transport.Theorems
 import TinsModel.Wire.App.Theorems
 import TinsModel.Wire.Wifi.Theorems
+import TinsModel.Wire.Chain.Examples
 /-
   Property C04 — what is set through the API is what a parser of the wire bytes gets back.  Generic facts here;
   the per-class shadow-model and codec-inverse theorems live in TinsModel/Wire/<Family>/Theorems.lean.
@@ -30,5 +31,32 @@ theorem l2_built_packet_reparse (o : Wire.AnyObj) (os : List Wire.AnyObj) (hs : 
     ∃ os', Wire.parseChain (out.length + 2) o.info.1 out = .ok os' ∧
       Wire.L2.ViewEq (Wire.L2.padOf (o :: os)) (o :: os) os' :=
   Wire.L2.l2_chain_reparse o os hs out hser
+
+/-- **built_packet_reparse** — the wire half of C04 for whole packets of all covered families: ANY stack of layers (built
+    through the API or parsed) of the link-layer family, IP, IPSecAH, IPSecESP, IPv6, UDP, TCP, ICMP, ICMPv6 over an optional
+    RawPDU that the protocols can express (`StackableAll`: every layer satisfies its invariant and the side conditions of its
+    wire format — wire-normal IP options, canonical TCP options, aligned IPv6 extension headers, sizes that fit the 16-bit
+    length fields, no ICMP extension structure — and each layer's successor is a class its next-protocol tag names under the
+    dispatch the parser uses, or a RawPDU under a tag libtins does not dispatch on), once serialized, is parsed back by libtins
+    to the same classes in the same order with the same views and payload (at most `padAll` bytes of minimum-frame padding
+    behind it; none through IP / IPv6).  The object half is `<fam>_mk_inv` / `<fam>_apply_inv` and the per-class last-write-map
+    and codec theorems of every family (`Audit/Wire*.lean`). -/
+theorem built_packet_reparse (o : Wire.AnyObj) (os : List Wire.AnyObj) (hs : Wire.ChainAll.StackableAll (o :: os)) (out : Bytes)
+    (hser : Wire.serializeObjs (o :: os) = .ok out) :
+    ∃ os', Wire.parseChain (out.length + 2) o.info.1 out = .ok os' ∧
+      Wire.ChainAll.ViewEqAll (Wire.ChainAll.padAll (o :: os)) (o :: os) os' :=
+  Wire.ChainAll.chain_reparse_all o os hs out hser
+
+/-- **built_packet_reparse_net** — through IP / IPv6 the payload comes back byte for byte -/
+theorem built_packet_reparse_net (o : Wire.AnyObj) (os : List Wire.AnyObj) (hs : Wire.ChainAll.StackableAll (o :: os))
+    (hnet : ∃ x ∈ o :: os, Wire.ChainAll.isNet x = true) (out : Bytes) (hser : Wire.serializeObjs (o :: os) = .ok out) :
+    ∃ os', Wire.parseChain (out.length + 2) o.info.1 out = .ok os' ∧ Wire.ChainAll.ViewEqAll 0 (o :: os) os' ∧
+      (Wire.L2.splitRaw os').2 = (Wire.L2.splitRaw (o :: os)).2 :=
+  Wire.ChainAll.chain_reparse_all_net o os hs hnet out hser
+
+/-- every representable stack serializes: `serialize()` is total on it and returns exactly `size()` bytes -/
+theorem built_packet_serializes_all (os : List Wire.AnyObj) (hs : Wire.ChainAll.StackableAll os) :
+    ∃ out, Wire.serializeObjs os = .ok out ∧ out.length = Wire.sizeOf (Wire.sems os) :=
+  Wire.ChainAll.stackableAll_serializes os hs
 
 end Tins.Props.C04
